@@ -124,7 +124,9 @@ def tlc(module, cfg=None, *, cwd=None, workers=1, simulate=None, depth=None, see
     tag = "%s-%d-%d" % (os.path.basename(module), os.getpid(), int(time.time() * 1000) % 100000000)
     meta = os.path.join(WORK, "tlc", tag)
     os.makedirs(meta, exist_ok=True)
-    jopts = ["-Xss1g", "-Xmx" + heap, "-XX:+UseParallelGC"]
+    # few GC / JIT threads: on a loaded 16-core box the default 13+ GC threads make a 2 s run take 12 s
+    jopts = ["-Xss1g", "-Xmx" + heap, "-XX:+UseParallelGC", "-XX:ParallelGCThreads=%d" % max(2, min(workers, 8)),
+             "-XX:CICompilerCount=2"]
     if deque:
         jopts.append("-Dtlc2.tool.queue.IStateQueue=StateDeque")
     libdirs = [os.path.join(SPEC, d) for d in sorted(os.listdir(SPEC)) if os.path.isdir(os.path.join(SPEC, d))]
